@@ -13,9 +13,11 @@ Each event yields exactly one observation (obs..., result) in the same shape the
 """
 from __future__ import annotations
 
+import contextlib
 import fcntl
 import logging
 import os
+import shutil
 import tempfile
 from typing import Any, Dict, List, Optional, Tuple
 
@@ -42,6 +44,10 @@ class FlockRun:
         self.call: Dict[int, Dict[str, Any]] = {}      # per client: the call in progress
         self.probe = probe
         self.stats = {"ok": 0, "timeout": 0, "wouldblock": 0, "probes": 0}
+        logging.disable(logging.CRITICAL)
+        self._ctx = contextlib.ExitStack()
+        self._ctx.enter_context(patched_file_lock(self.sched, self.fds))
+        self._closed = False
 
     # ------------------------------------------------------------------ helpers
     def _actor(self, c: int):
@@ -210,7 +216,12 @@ class FlockRun:
         return out
 
     def close(self) -> None:
+        if self._closed:
+            return
+        self._closed = True
         self.sched.close()
+        self._ctx.close()
+        shutil.rmtree(self.dir, ignore_errors=True)
         for lk in self.locks.values():          # nothing may be released by __del__ on a recycled fd number
             lk._locked = False
             lk._lock_fd = None
@@ -223,14 +234,12 @@ class FlockRun:
 
 
 def run_flock(events: List[List[Any]], scratch: str, probe: bool = True) -> FlockRun:
-    logging.disable(logging.CRITICAL)
     r = FlockRun(scratch, probe)
-    with patched_file_lock(r.sched, r.fds):
-        try:
-            for ev in events:
-                r.event(ev)
-        finally:
-            r.close()
+    try:
+        for ev in events:
+            r.event(ev)
+    finally:
+        r.close()
     return r
 
 
@@ -255,7 +264,10 @@ class S3Run:
         self.last_ok_write: Dict[int, int] = {}       # client -> time of its last PUT whose reply it saw
         self.superseded: Dict[int, bool] = {}         # client -> its object was overwritten by another owner
         self.late_delete = False
-        self.uni = None
+        logging.disable(logging.CRITICAL)
+        self._ctx = contextlib.ExitStack()
+        self.uni = self._ctx.enter_context(patched_lock_provider(self.sched))
+        self._closed = False
         self.stats = {"ok": 0, "timeout": 0, "raised": 0, "held_true": 0, "held_false": 0, "takeovers": 0,
                       "renew_ok": 0, "renew_lost_lock": 0, "max_live": 0}
 
@@ -483,17 +495,18 @@ class S3Run:
         return [(bool(self.prov[c].is_locked) if c in self.prov else False, c in live) for c in clients]
 
     def close(self) -> None:
+        if self._closed:
+            return
+        self._closed = True
         self.sched.close()
+        self._ctx.close()
 
 
 def run_s3(events: List[List[Any]], lease_s: int = 60) -> S3Run:
-    logging.disable(logging.CRITICAL)
     r = S3Run(lease_s)
-    with patched_lock_provider(r.sched) as uni:
-        r.uni = uni
-        try:
-            for ev in events:
-                r.event(ev)
-        finally:
-            r.close()
+    try:
+        for ev in events:
+            r.event(ev)
+    finally:
+        r.close()
     return r
